@@ -33,7 +33,8 @@ type gen struct {
 	owners  [][]byte
 	keys    [][]byte
 	cfgKeys [][]byte
-	cur     int64 // netmap epoch as the generator believes it
+	cur     int64    // netmap epoch as the generator believes it
+	pending []string // directed lines to be issued before the random stream continues
 	ntag    int
 }
 
@@ -170,6 +171,44 @@ func (g *gen) cid() []byte {
 	return hx.Pick(g.rng, g.cids)
 }
 
+// audTwoSigners: directed multi-signer puts right after a designation. The admission rule speaks of the key recorded
+// in the result, not of the transaction's signers: {member A + outsider X, key X} and {outsiders X + Y, key X} must be
+// refused, {members A + B, key B} and {member A + outsider X, key A} are legal. pool[6], pool[7] are never designated.
+func (g *gen) audTwoSigners() []string {
+	if len(g.keys) == 0 {
+		return nil
+	}
+	a, b := g.keys[0], g.keys[len(g.keys)-1]
+	x, y := g.w.pool[6], g.w.pool[7]
+	e := hx.Pick(g.rng, []int64{1, 257, 65536})
+	cid := g.cid()
+	put := func(sig string, key []byte, tail byte) string {
+		g.epochs = append(g.epochs, e)
+		h := sha256.Sum256(key)
+		g.ids = append(g.ids, cat(encInt(big.NewInt(e)), cid, h[:24]))
+		return fmt.Sprintf("op %s aput %s ? ?", sig, hx.Hex(mkAudit(0, uint64(e), cid, key, []byte{tail})))
+	}
+	hxs := func(ks ...[]byte) string {
+		var out []string
+		for i, k := range ks {
+			if i > 0 && bytes.Equal(k, ks[0]) {
+				continue
+			}
+			out = append(out, hx.Hex(k))
+		}
+		return strings.Join(out, ",")
+	}
+	return []string{
+		put(hxs(a, x), x, 1),
+		put(hxs(a, b), b, 2),
+		put(hxs(x, y), x, 3),
+		put(hxs(a, x), a, 4),
+		fmt.Sprintf("op - alistN %d %s %s ?", e, hx.Hex(cid), hx.Hex(x)),
+		fmt.Sprintf("op - alistE %d", e),
+		"op - alist",
+	}
+}
+
 func (g *gen) nextAud(i int) string {
 	if i == 0 || g.rng.IntN(40) == 0 {
 		n := 1 + g.rng.IntN(4)
@@ -180,8 +219,14 @@ func (g *gen) nextAud(i int) string {
 		}
 		if sig == "cmt" {
 			g.keys = g.w.pool[off : off+n]
+			g.pending = append(g.pending, g.audTwoSigners()...)
 		}
 		return fmt.Sprintf("env %s designate %s", sig, hexList(g.w.pool[off:off+n]))
+	}
+	if len(g.pending) > 0 {
+		l := g.pending[0]
+		g.pending = g.pending[1:]
+		return l
 	}
 	r := g.rng.IntN(100)
 	switch {
@@ -212,6 +257,20 @@ func (g *gen) nextAud(i int) string {
 			sig = hx.Hex(g.w.pool[g.rng.IntN(6)])
 		case 2:
 			sig = "alpha"
+		case 3, 4: // two signers: the reporter and somebody else (a member or an outsider)
+			other := g.w.pool[g.rng.IntN(nPool)]
+			if !bytes.Equal(other, from) {
+				if g.rng.IntN(2) == 0 {
+					sig = hx.Hex(from) + "," + hx.Hex(other)
+				} else {
+					sig = hx.Hex(other) + "," + hx.Hex(from)
+				}
+			}
+		case 5: // an Inner Ring member co-signs a result reported under an outsider's key
+			if len(g.keys) > 0 {
+				from = g.w.pool[6+g.rng.IntN(2)]
+				sig = hx.Hex(hx.Pick(g.rng, g.keys)) + "," + hx.Hex(from)
+			}
 		}
 		key := from
 		if g.rng.IntN(25) == 0 {
@@ -285,6 +344,16 @@ func (g *gen) estSetup() []string {
 			fmt.Sprintf("op - citer %d %s", e, hx.Hex(cid)))
 		g.epochs = append(g.epochs, e)
 	}
+	// directed: two signers. The admission rule speaks of the reporter key of the estimation: {node A + stranger X,
+	// reporter X} and {strangers X + Y, reporter X} must be refused, {nodes A + B, reporter B} and {node A + stranger X,
+	// reporter A} are legal. pool[5..7] never join the network map.
+	a, b, x, y := g.w.pool[0], g.w.pool[1], g.w.pool[6], g.w.pool[7]
+	two := func(s1, s2, rep []byte, size int) string {
+		return fmt.Sprintf("op %s,%s cput %d %s %d %s ? ?", hx.Hex(s1), hx.Hex(s2), g.cur, hx.Hex(g.cids[2]), size, hx.Hex(rep))
+	}
+	out = append(out, two(a, x, x, 31), two(a, b, b, 32), two(x, y, x, 33), two(a, x, a, 34),
+		fmt.Sprintf("op - citer %d %s", g.cur, hx.Hex(g.cids[2])))
+	g.epochs = append(g.epochs, g.cur)
 	return out
 }
 
@@ -331,6 +400,14 @@ func (g *gen) nextEst() string {
 			sig = "alpha"
 		case 3:
 			sig = "alpha," + hx.Hex(node)
+		case 4: // the reporter and somebody else
+			other := g.w.pool[g.rng.IntN(nPool)]
+			if !bytes.Equal(other, node) {
+				sig = hx.Hex(other) + "," + hx.Hex(node)
+			}
+		case 5: // a node of the map co-signs an estimation reported under a stranger's key
+			node = g.w.pool[5+g.rng.IntN(3)]
+			sig = hx.Hex(g.w.pool[g.rng.IntN(3)]) + "," + hx.Hex(node)
 		}
 		pub := node
 		if g.rng.IntN(30) == 0 {
